@@ -96,8 +96,14 @@ pub fn aux_step(aux: &Slots, _pre: &[Snap], a: &Action, _post: &[Snap]) -> Slots
                     if let Some(f) = a.frame() {
                         let sm = sem::sem(&f);
                         if df == 17 {
-                            if let Some((parity, la, lo, _)) = sm.pos {
-                                s.set(addr, parity, Slot::Known { lat: la, lon: lo, age: 0 });
+                            if let Some((parity, la, lo, airborne)) = sm.pos {
+                                if airborne {
+                                    s.set(addr, parity, Slot::Known { lat: la, lon: lo, age: 0 });
+                                } else {
+                                    // a surface squitter: whether it shares the airborne slots is an implementation
+                                    // choice the statements leave open - pairs involving this slot are not judged
+                                    s.set(addr, parity, Slot::Unknown);
+                                }
                             }
                         } else if df == 18 {
                             let tc = frames::me_get(f.get(33, 56), 1, 5);
